@@ -59,6 +59,8 @@ def alphabet():
     A = {}
     d, vbs = trap_bytes(b"public", PAYLOADS[0], 101)
     A["valid0"] = (d, ADDR1, vbs, True)
+    # the very same datagram, byte for byte, from another sender
+    A["valid0-from-elsewhere"] = (d, ADDR2, vbs, True)
     d3, vbs3 = trap_bytes(b"public", PAYLOADS[3], 102)
     A["valid3"] = (d3, ADDR2, vbs3, True)
     dk, vbsk = trap_bytes(b"public", PAYLOADS["kinds"], 103, uptime=2**32 - 1)
@@ -118,6 +120,7 @@ def run_sequence(letters, datagrams):
     CLOCK.reset()
     loop = VLoop()
     deliveries = []
+    kept = []  # an application may keep what it was handed
 
     async def callback(pdu):
         if not isinstance(pdu, Trap):
@@ -142,6 +145,7 @@ def run_sequence(letters, datagrams):
         except Exception as exc:  # noqa
             origin = "!" + repr(exc)[:60]
         deliveries.append(("trap", vbs, (getattr(src, "address", None), getattr(src, "port", None)) if src is not None else None, origin))
+        kept.append((len(deliveries) - 1, pdu))
 
     setup_exc = None
     try:
@@ -158,6 +162,18 @@ def run_sequence(letters, datagrams):
                     loop.run_until_idle(horizon=CLOCK.mono + 1)
                 except Exception as exc:  # noqa - nothing may escape the loop
                     escaped.append(repr(exc)[:100])
+    # what was handed over earlier must still say the same once later
+    # datagrams have been processed
+    for i, pdu in kept:
+        try:
+            src = pdu.source
+            now = ((getattr(src, "address", None), getattr(src, "port", None)) if src is not None else None, TrapInfo(pdu).origin)
+            vbs_now = tuple((world.norm_oid(vb.oid), world.norm_value(vb.value)) for vb in pdu.value.varbinds)
+        except Exception as exc:  # noqa
+            now, vbs_now = ("!" + repr(exc)[:60], None), None
+        d = deliveries[i]
+        if d[3] is not None and not str(d[3]).startswith("!") and (now != (d[2], d[3]) or vbs_now != d[1]):
+            deliveries[i] = (d[0], d[1], d[2], "!changed after delivery: %r" % (now,))
     gc.collect()
     logged = len(loop.logged)
     closed = bool(loop.transports and loop.transports[0].closing)
